@@ -59,7 +59,7 @@ func NewSys(v Variant, gate bool, extra bool) *Sys {
 	if gate {
 		ops = append(ops, "TimerFires", "TimeoutRuns")
 	}
-	ops = append(ops, "RCR+", "RCR-nak", "RCR-rej", "RCA", "RCA-stale", "RCN", "RCN-stale", "RCJ", "RCJ-stale", "RTR", "RTA",
+	ops = append(ops, "RCR+", "RCR-nak", "RCR-rej", "RCA", "RCA-stale", "RCA-next", "RCN", "RCN-stale", "RCJ", "RCJ-stale", "RTR", "RTA",
 		"CodeRej-crit", "CodeRej-other", "EchoReq", "EchoReq-short", "Unknown")
 	if v.Proto == "lcp" {
 		ops = append(ops, "ProtoRej-lcp", "ProtoRej-other")
@@ -290,10 +290,13 @@ func (in *inst) build(op string, base int, ev core.Event) (raw []byte, code int,
 	case "RCR-bad": // option with length field 1 (malformed)
 		i := idOf(peerIDOffset[op])
 		return packet(1, i, []byte{1, 1, 0, 0}), 1, int(i), []opt{}
-	case "RCA", "RCA-stale":
+	case "RCA", "RCA-stale", "RCA-next":
 		i := idOf(0)
 		if op == "RCA-stale" {
 			i = idOf(-1)
+		}
+		if op == "RCA-next" { // the identifier our side will use for its NEXT packet (it acknowledges nothing yet)
+			i = idOf(1)
 		}
 		return packet(2, i, in.curOpts), 2, int(i), []opt{}
 	case "RCN", "RCN-stale":
